@@ -103,7 +103,7 @@ def gen_cases(tier, seed):
                         continue
                     if tier == "quick" and binding != "post" and rng.random() < 0.6:
                         continue
-                    nfmt = rng.choice(["persistent", "transient", "email", "given"])
+                    nfmt = rng.choice(["persistent", "transient", "email", "given", "given-astral"])
                     cid = "%s-r%d-a%d-e%d-%s-%s-%s" % (icls, sr, sa, enc, binding, alg, nfmt)
                     skew = rng.choice([0, 0, 180, 3600])
                     extra = rng.choice([None, None, "locality-ip", "locality-ipv6", "locality-dns", "instant"])
@@ -113,7 +113,7 @@ def gen_cases(tier, seed):
     # the attributes in an encrypted advice assertion (pefim), with and without the assertion around it encrypted as well
     for icls in IDENT_CLASSES[:4] if tier == "quick" else IDENT_CLASSES:
         for (sr, sa, enc) in combos:
-            nfmt = rng.choice(["persistent", "transient", "given"])
+            nfmt = rng.choice(["persistent", "transient", "given", "given-astral"])
             cases.append({"id": "%s-r%d-a%d-e%d-post-default-%s-pefim" % (icls, sr, sa, enc, nfmt), "sig": [icls, nfmt, "post", sr, sa, enc, "default", False, "pefim"],
                           "icls": icls, "sr": sr, "sa": sa, "enc": enc, "binding": "post", "alg": "default", "nfmt": nfmt, "classref": CLASSREFS[0], "snooa": None,
                           "lifetime": 15, "skew": 0, "authn_extra": None, "pefim": 1})
@@ -249,8 +249,9 @@ def run_case(case, ctx):
     rid, req = sp.create_authn_request(fed.SSO_REDIRECT)
     kw = {}
     given_nid = None
-    if case["nfmt"] == "given":
-        given_nid = NameID(format=NAMEID_FORMAT_EMAILADDRESS, text="ann<&>\"q\"@example.org", sp_name_qualifier=fed.SP_EID)
+    if case["nfmt"] in ("given", "given-astral"):
+        text = "ann<&>\"q\"@example.org" if case["nfmt"] == "given" else "user-\U0001F600-\U0001D518\U00020000-\u00e9@example.org"     # (outside the BMP)
+        given_nid = NameID(format=NAMEID_FORMAT_EMAILADDRESS, text=text, sp_name_qualifier=fed.SP_EID)
         kw["name_id"] = given_nid
     else:
         fmt = {"persistent": NAMEID_FORMAT_PERSISTENT, "transient": NAMEID_FORMAT_TRANSIENT, "email": NAMEID_FORMAT_EMAILADDRESS}[case["nfmt"]]
